@@ -475,6 +475,9 @@ def g_none_belief(ck, funcs):
             if not (isinstance(x, ast.Attribute) and isinstance(x.ctx, ast.Store) and ast.unparse(x.value) in beliefs):
                 continue
             recv = ast.unparse(x.value)
+            if ast.unparse(x) in beliefs:
+                # `X.b = ...` where X.b itself is what may be missing: the assignment is the answer to the belief, not a contradiction of it
+                continue
             # protected: inside a try that catches AttributeError, or under a test mentioning `recv is not None` / `recv` / hasattr(recv...)
             prot = False
             cur = x
@@ -498,7 +501,59 @@ def g_none_belief(ck, funcs):
     ck.extra.setdefault('generic_counts', {})['G-BELIEF attribute stores on a possibly-None receiver'] = n
 
 
+def g_dead_handler(ck, funcs):
+    """G-DEADHANDLER: a `try` whose body only reads names and attributes (`_ = catalog.region.magnitudes`) can raise nothing but
+    AttributeError / NameError.  A handler for a package-defined exception that is neither (CSEPCatalogException) can then never run: the
+    fallback it holds - binding the forecast's region to a catalog that has none - is unreachable, and the AttributeError it was meant to
+    answer escapes."""
+    P = ck.prog
+    n = 0
+    for f in funcs:
+        for t in [x for x in _scope_nodes(f) if isinstance(x, ast.Try)]:
+            def plain(e):
+                return isinstance(e, (ast.Name, ast.Constant)) or (isinstance(e, ast.Attribute) and plain(e.value))
+            if not t.body or not all((isinstance(st, ast.Assign) and plain(st.value) and all(isinstance(tg, ast.Name) for tg in st.targets)) or
+                                     (isinstance(st, ast.Expr) and plain(st.value)) for st in t.body):
+                continue
+            if not any(isinstance(x, ast.Attribute) for st in t.body for x in ast.walk(st)):
+                continue
+            for h in t.handlers:
+                if h.type is None:
+                    continue
+                names = h.type.elts if isinstance(h.type, ast.Tuple) else [h.type]
+                quals = []
+                for nm in names:
+                    try:
+                        quals.append(P.canon(f, nm))
+                    except Exception:
+                        quals.append(None)
+                if not all(q is not None and q in P.classes for q in quals):
+                    continue        # a builtin or unknown class: not decided here
+
+                def derives(c, seen=()):
+                    for b in c.node.bases:
+                        bt = ast.unparse(b).split('.')[-1]
+                        if bt in ('AttributeError', 'NameError', 'LookupError', 'BaseException', 'Exception') and bt in ('AttributeError', 'NameError'):
+                            return True
+                        try:
+                            bq = P.canon(c.module_func if hasattr(c, 'module_func') else f, b)
+                        except Exception:
+                            bq = None
+                        if bq in P.classes and bq not in seen and derives(P.classes[bq], seen + (bq,)):
+                            return True
+                    return False
+                if any(derives(P.classes[q]) for q in quals):
+                    continue
+                n += 1
+                o = ck.ob('G-DEADHANDLER', f, 'except %s' % ast.unparse(h.type), h)
+                o.fail('the try at L%d only reads `%s`, which can raise AttributeError and nothing else; `except %s` never runs, so the fallback '
+                       '`%s` is unreachable and a missing attribute (a catalog without region) escapes as AttributeError'
+                       % (t.lineno, ast.unparse(t.body[0])[:50], ast.unparse(h.type), ast.unparse(h.body[0])[:60] if h.body else ''))
+    ck.extra.setdefault('generic_counts', {})['G-DEADHANDLER unreachable handlers'] = n
+
+
 def stmt_text(par, x):
+
     cur = x
     while id(cur) in par and not isinstance(cur, ast.stmt):
         cur = par[id(cur)]
@@ -542,4 +597,5 @@ def run_generic(ck, roots, stop_modules=(), zero_iter_funcs=(), accepted_unbound
     g_mutable_default(ck, funcs)
     g_list_as_array(ck, funcs)
     g_none_belief(ck, funcs)
+    g_dead_handler(ck, funcs)
     return funcs
